@@ -133,7 +133,7 @@ def _acq_choices(cfg, want_shared, nonblocking):
     return xs
 
 
-def _gen_prog(rng, cfg, counter_only, edge):
+def _gen_prog(rng, cfg, counter_only, edge, handle_share=55):
     fl = cfg[0]
     en = locking(cfg)
     has_h = fl != ATOMIC
@@ -191,7 +191,7 @@ def _gen_prog(rng, cfg, counter_only, edge):
         cur = h
         if rng.chance(1, 4):
             d = rng.pick([i for i in range(NSLOTS) if i != h])
-            if st[d] != 'E' and sh[d] == sh[h] and rng.chance(2, 3):
+            if st[d] != 'E' and sh[d] == sh[h] and rng.chance(4, 5):
                 ops.append([MOVE_ASSIGN, h, d])
             else:
                 ops.append([MOVE_CTOR, h, d])
@@ -244,7 +244,7 @@ def _gen_prog(rng, cfg, counter_only, edge):
         r = rng.below(100)
         if edge and r < 12:
             edge_op()
-        elif has_h and (r < 55 or not whole):
+        elif has_h and (r < handle_share or not whole):
             handle_block()
         elif whole:
             whole_op()
@@ -268,10 +268,18 @@ def _user_calls(cfg, progs):
 
 
 def gen(rng, tier, spec):
+    """spec['id'] tunes the mix: C08 more try / timed forms and disabled mode, C02 the shared flavours,
+    C15 the whole-object (register) operations, C20 throw plans in half of the cases"""
     pid = (spec or {}).get('id', 'C01')
     fl = rng.weighted([(4, GUARDED), (3, GUARDED_OPT), (4, SHARED), (3, SHARED_OPT), (4, ORDERED), (3, ATOMIC)])
     if pid == 'C08' and rng.chance(1, 4):
         fl = rng.pick([GUARDED_OPT, SHARED_OPT])
+    elif pid == 'C02' and rng.chance(3, 4):
+        fl = rng.pick([SHARED, SHARED_OPT, ORDERED])
+    elif pid == 'C15' and rng.chance(3, 4):
+        fl = rng.pick([ATOMIC, ATOMIC, ATOMIC, GUARDED, GUARDED_OPT, ORDERED])
+    elif pid == 'C20' and rng.chance(1, 2):
+        fl = rng.pick([ORDERED, ATOMIC, GUARDED])
     mk = rng.below(4)
     if pid == 'C08':
         en = 1 if rng.chance(1, 2) else 0
@@ -280,11 +288,11 @@ def gen(rng, tier, spec):
     init = rng.range(0, 5)
     cfg = [fl, mk, en, init]
     edge = rng.chance(1, 6)
-    counter_only = rng.chance(2, 5)
+    counter_only = rng.chance(2, 5) and pid not in ('C15', 'C20')
     nt = rng.weighted([(5, 2), (5, 3), (3, 4)])
-    progs = [_gen_prog(rng, cfg, counter_only, edge) for _ in range(nt)]
+    progs = [_gen_prog(rng, cfg, counter_only, edge, 25 if pid in ('C15', 'C20') else 55) for _ in range(nt)]
     ncalls = _user_calls(cfg, progs)
-    if ncalls and rng.chance(1, 10):
+    if ncalls and rng.chance(1, 2 if pid == 'C20' else 10):
         ks = sorted(set(rng.below(ncalls) for _ in range(rng.range(1, 2))))
         cfg = cfg + ks
     cw = ((14, 0), (3, 2))
